@@ -347,7 +347,10 @@ class Executor(ExprMixin, CallMixin):
         """-> list of states after `tgt = v` (exceptional paths go to the sink)."""
         if isinstance(tgt, ast.Name):
             if tgt.id in st.frame.globals_:
-                self.unsupported(tgt, "assignment to global")
+                if not getattr(self.reg, "global_cells", False):
+                    self.unsupported(tgt, "assignment to global")
+                self.store_global(st, tgt.id, v)       # opt-in (reg.global_cells): module globals as cells, see exprs.read_global_cell
+                return [st]
             st.bind(tgt.id, v)
             return [st]
         if isinstance(tgt, (ast.Tuple, ast.List)):
